@@ -7,12 +7,15 @@ import Sentinel.Model.Isolation
           `entry <id> <res> <batch>`            => `pass` | `block iso <rule-index> <triggered-value>` | `dup`
           `exit <id> [err]`, `dexit <id>` (two concurrent Exit calls), `trace <id>` (no-op), `entry … type=<t>` (same as without),
           `entry <id> <res> -` (no batch option = batch 1), `manyres <n>` (enter+exit n fresh rule-less resources: no-op),
+          `sload …` / `sloadres …` (= `load` / `loadres` through one reused caller-owned slice, overwritten after the call),
+          `poke <res> <idx> <thr>` (in-place edit of a loaded valid rule object, thr ≠ 0), `rules <res>` / `rules` (GetRulesOfResource / GetRules),
+          `entry … [type=<t>] [in]` (in = WithTrafficType(Inbound)),
           `loadres <res> <thr>*` / `clearres <res>` (LoadRulesOfResource / ClearRulesOfResource), `clock <ms>` (offset from the case start,
           may step backwards: no-op of both machines)
           `conc <res>`                          => gauge
           `sched <id0> <res> <b0,b1,…> <i0,i1,…|->`  => `[r0,…] max=<g>`   (r = `-` idle, `p` in flight, `x` exited, `b<idx>:<tv>` blocked)
           `par <id0> <k> <res> <batch>`         = `sched id0 res b,…,b 0,…,k-1,0,…,k-1`
-          `soak <res> <goroutines> <rounds> <batch> [x2]` => `gauge0=ok max<=<bound> min=ok rej=ok total=ok`  (real goroutines looping Entry/Exit;
+          `soak <res> <goroutines> <rounds> <batch> [x2]` => `gauge0=ok max<=<bound> min=ok rej=ok cold=ok total=ok`  (real goroutines looping Entry/Exit;
                                                   only verdicts against the bounds are printed, never the racy values) -/
 namespace Sentinel.Drv.C04
 open Sentinel.Iso Sentinel.Drv
@@ -44,12 +47,22 @@ def resType (s : String) : Bool :=
 
 def parse : List String → Option Op
   | "load" :: rs => (rs.mapM rule?).map .load
+  | "sload" :: rs => (rs.mapM rule?).map .load       -- same call through a reused caller-owned slice that is overwritten afterwards
+  | "sloadres" :: res :: ths =>
+      if res = "" ∨ res.startsWith "#" then none else (ths.mapM u32?).map (.loadres true res)
+  | ["poke", res, idx, t] => do
+      let t ← u32? t
+      if t = 0 then none else some (.poke res (← idx.toNat?) t)
+  | ["rules", res] => some (.getrules res)
+  | ["rules"] => some .getall
   | "loadres" :: res :: ths =>          -- isolation.LoadRulesOfResource(res, rules with these thresholds)
-      if res = "" ∨ res.startsWith "#" then none else (ths.mapM u32?).map (.loadres res)
+      if res = "" ∨ res.startsWith "#" then none else (ths.mapM u32?).map (.loadres false res)
   | ["clearres", res] =>                -- isolation.ClearRulesOfResource(res), also for a resource without rules
-      if res = "" ∨ res.startsWith "#" then none else some (.loadres res [])
+      if res = "" ∨ res.startsWith "#" then none else some (.loadres false res [])
   | ["entry", id, res, b] => do some (.entry (← id.toNat?) res (← batch? b))
-  | ["entry", id, res, b, ty] =>     -- the gauge belongs to the resource NAME, whatever the resource type of the entry
+  | ["entry", id, res, b, ty] =>     -- the gauge belongs to the resource NAME, whatever the resource type / traffic direction of the entry
+      if resType ty ∨ ty = "in" then do some (.entry (← id.toNat?) res (← batch? b)) else none
+  | ["entry", id, res, b, ty, "in"] =>
       if resType ty then do some (.entry (← id.toNat?) res (← batch? b)) else none
   | ["exit", id] => do some (.exit (← id.toNat?))
   | ["exit", id, "err"] => do some (.exit (← id.toNat?))      -- an error on the entry changes nothing in the accounting
@@ -75,6 +88,10 @@ def showPc : Pc → String
   | .rejected idx tv => s!"b{idx}:{tv.toNat}"
   | .done => "x"
 
+/-- `GetRules` walks a Go map: canonical order = by (resource, position) -/
+def sortRules (rs : List (String × Rule)) : List (String × Rule) :=
+  (rs.toArray.qsort fun a b => a.1 < b.1 ∨ (a.1 = b.1 ∧ a.2.idx < b.2.idx)).toList
+
 def showOut : Out → Option String
   | .none => none
   | .pass => some "pass"
@@ -82,7 +99,9 @@ def showOut : Out → Option String
   | .dup => some "dup"
   | .val g => some (toString g)
   | .sched th mx => some (showList (th.map showPc) ++ s!" max={mx}")
-  | .soak bound => some s!"gauge0=ok max<={bound} min=ok rej=ok total=ok"
+  | .rules rs => some (showList (rs.map fun r => s!"{r.idx}:{r.thr.toNat}"))
+  | .allrules rs => some (showList ((sortRules rs).map fun p => s!"{p.1}:{p.2.idx}:{p.2.thr.toNat}"))
+  | .soak bound => some s!"gauge0=ok max<={bound} min=ok rej=ok cold=ok total=ok"
 
 /-- `trace <id>` (api.TraceError) never touches rules, gauges or handles: a no-op of both machines -/
 def isTrace : List String → Bool
@@ -106,7 +125,10 @@ def stepModel (s : St) (ts : List String) (_ : String) : St × Option String :=
 def stepSpec (s : SpecSt) (ts : List String) (_ : String) : SpecSt × Option String :=
   if isTrace ts then (s, none) else
   match parse ts with
-  | some op => let (s', o) := specStep s op; (s', showOut o)
+  | some op =>
+    let (s', _) := specStep s op
+    -- what the property claims: the observation under the rules of the latest loads (`ideal`; equal to `rules` by `enforced_is_latest_load`)
+    (s', showOut (specStep { s with rules := s.ideal } op).2)
   | none => (s, some "bad-op")
 
 def run (mode : String) : IO Unit :=
